@@ -130,8 +130,15 @@ def gen_scenarios(rng, n):
             out.append({"lines": lines, "reqs": [gen_request(rng) for _ in range(3)], "fatal": True})
             continue
         quirk = 0.05 <= kind < 0.15
-        lines = gen_config(rng, quirk)
-        s = {"lines": lines, "reqs": [gen_request(rng) for _ in range(25)]}
+        # prefer configurations that both forward and deny (judged by the reference on placeholder ports); one in
+        # four is taken as it comes
+        as_it_comes = rng.random() < 0.25
+        for attempt in range(12):
+            lines = gen_config(rng, quirk)
+            s = {"lines": lines, "reqs": [gen_request(rng) for _ in range(25)]}
+            f = sum(1 for r in s["reqs"] if reference(s, r, [8001, 8005, 8009])) / 25.0
+            if as_it_comes or 0.15 <= f <= 0.85:
+                break
         if quirk and any(t in IP_QUIRKS for l in lines if l["k"] == "acl" and l["type"] in ("src", "dst") for t in l["toks"]):
             s["lenient"] = True
         out.append(s)
@@ -357,7 +364,7 @@ def _ip_in(x, t):
     if t[0] == "single":
         return x == ipn(t[1])
     if t[0] == "cidr":
-        return ipaddress.IPv4Address(x) in ipaddress.IPv4Network("%s/%d" % (t[1], t[2]), strict=True)
+        return ipaddress.IPv4Address(x) in ipaddress.IPv4Network("%s/%d" % (t[1], t[2]), strict=False)
     if t[0] == "range":
         return ipn(t[1]) <= x <= ipn(t[2])
     size = 1 << (32 - t[3])
